@@ -11,6 +11,7 @@ import (
 	"github.com/sirupsen/logrus"
 	"io"
 	"os"
+	"os/exec"
 	"path/filepath"
 	"regexp"
 	"runtime"
@@ -67,6 +68,72 @@ type Run struct {
 	transitions int64
 	traces      int64
 	engineErr   []string
+	distinctAdd int // distinct cases reported by child processes
+}
+
+type childResult struct {
+	Evals       int64          `json:"evals"`
+	Distinct    int            `json:"distinct"`
+	States      int64          `json:"states"`
+	Transitions int64          `json:"transitions"`
+	Traces      int64          `json:"traces"`
+	Exhaustive  bool           `json:"exhaustive"`
+	Caps        []string       `json:"caps"`
+	EngineErr   []string       `json:"engine_errors"`
+	Violations  []Violation    `json:"violations"`
+	Extra       map[string]any `json:"extra"`
+	Samples     []any          `json:"samples"`
+}
+
+// RunChild runs another harness binary (e.g. the same harness built with other tags) as a
+// child with the same tier and merges what it did into this run. Keys of its violations are
+// prefixed with label.
+func (r *Run) RunChild(label, bin string, args ...string) {
+	out := filepath.Join(os.Getenv("VERIF_TMP"), fmt.Sprintf("child-%s-%d.json", label, time.Now().UnixNano()))
+	a := append([]string{"-tier", r.Tier, "-child-out", out, "-workers", fmt.Sprint(r.Workers)}, args...)
+	cmd := exec.Command(bin, a...)
+	cmd.Stderr = os.Stderr
+	cmd.Stdout = os.Stderr
+	if err := cmd.Run(); err != nil {
+		r.EngineError("child %s failed: %v", label, err)
+		return
+	}
+	b, err := os.ReadFile(out)
+	if err != nil {
+		r.EngineError("child %s wrote no result: %v", label, err)
+		return
+	}
+	os.Remove(out)
+	var cr childResult
+	if err := json.Unmarshal(b, &cr); err != nil {
+		r.EngineError("child %s result unreadable: %v", label, err)
+		return
+	}
+	r.evals.Add(cr.Evals)
+	r.mu.Lock()
+	r.distinctAdd += cr.Distinct
+	r.states += cr.States
+	r.transitions += cr.Transitions
+	r.traces += cr.Traces
+	if !cr.Exhaustive {
+		r.exhaustive = false
+	}
+	for _, c := range cr.Caps {
+		r.capsHit = append(r.capsHit, label+": "+c)
+	}
+	for _, e := range cr.EngineErr {
+		r.engineErr = append(r.engineErr, label+": "+e)
+	}
+	r.extra["child_"+label] = map[string]any{"evaluations": cr.Evals, "distinct": cr.Distinct, "extra": cr.Extra}
+	for _, s := range cr.Samples {
+		if len(r.samples) < r.maxSamples+4 {
+			r.samples = append(r.samples, map[string]any{"build": label, "case": s})
+		}
+	}
+	r.mu.Unlock()
+	for _, v := range cr.Violations {
+		r.Violation(label+":"+v.Key, "["+label+" build] "+v.What, v.Case)
+	}
 }
 
 var (
@@ -76,6 +143,7 @@ var (
 	fKnown    = flag.String("known", "", "known findings jsonl")
 	fReplay   = flag.String("replay", "", "replay one recorded case instead of exploring")
 	fWorkers  = flag.Int("workers", 0, "parallel workers (default: NumCPU)")
+	fChildOut = flag.String("child-out", "", "internal: run as a child of another harness and write a result summary here")
 	fBudget   = flag.Duration("budget", 0, "soft wall-clock budget; when exceeded exploration stops with exhaustive=false")
 )
 
@@ -242,6 +310,18 @@ func fileKey(k string) string {
 
 // Finish writes the evidence file, prints verdict lines and exits.
 func (r *Run) Finish() {
+	if *fChildOut != "" {
+		cr := childResult{Evals: r.evals.Load(), Distinct: len(r.distinct), States: r.states, Transitions: r.transitions,
+			Traces: r.traces, Exhaustive: r.exhaustive, Caps: r.capsHit, EngineErr: r.engineErr, Extra: r.extra, Samples: r.samples}
+		for _, v := range r.viols {
+			cr.Violations = append(cr.Violations, v)
+		}
+		b, _ := json.Marshal(cr)
+		if err := os.WriteFile(*fChildOut, b, 0o644); err != nil {
+			os.Exit(2)
+		}
+		os.Exit(0)
+	}
 	known := r.loadKnown()
 	keys := make([]string, 0, len(r.viols))
 	for k := range r.viols {
@@ -269,7 +349,7 @@ func (r *Run) Finish() {
 		cov[k] = v
 	}
 	cov["evaluations"] = r.evals.Load()
-	cov["distinct_nontrivial"] = len(r.distinct)
+	cov["distinct_nontrivial"] = len(r.distinct) + r.distinctAdd
 	cov["rule"] = r.rule
 	if len(r.samples) == 0 {
 		r.samples = []any{}
@@ -308,7 +388,7 @@ func (r *Run) Finish() {
 		}
 	}
 	fmt.Printf("SUMMARY property=%s tier=%s evaluations=%d distinct=%d states=%d transitions=%d exhaustive=%v violations=%d known=%d wall=%.1fs\n",
-		r.ID, r.Tier, r.evals.Load(), len(r.distinct), r.states, r.transitions, cov["exhaustive"], len(unknown), len(matched), wall)
+		r.ID, r.Tier, r.evals.Load(), len(r.distinct)+r.distinctAdd, r.states, r.transitions, cov["exhaustive"], len(unknown), len(matched), wall)
 	for _, v := range matched {
 		fmt.Printf("KNOWN-FINDING: property=%s %s :: %s\n", r.ID, v.Key, oneLine(v.What))
 	}
